@@ -9,8 +9,10 @@ MORE2 = {
              "atoms < 2^34 bytes, including the prefix lemma for every prefix length. is_canonical_atom, is_canonical_serialization and "
              "serialized_length_from_bytes_trusted are proved against the grammar (canonical tokens; consumed length). (Kani, complete over all "
              "inputs) the prefix writer equals the format's prefix for every size, decode_size_with_offset inverts it, is_canonical_atom accepts "
-             "exactly minimal prefixes. NOT under contract: serialized_length_from_bytes (untrusted probe, allocator-based), the object-cache "
-             "length, and the converse clause 'canonical => re-serializes to the consumed bytes' (canon_tree <=> equals ser) is not yet a lemma.",
+             "exactly minimal prefixes. Canonical clause: lemma_c15_canonical_iff_reserializes shows that a decodable input is (whole input one tree of "
+             "canonical tokens) exactly when it equals ser(decoded tree), i.e. re-serializing reproduces it byte for byte. The untrusted probe "
+             "serialized_length_from_bytes returns the consumed length for every decodable input of at most 20,000,000 bytes (it allocates "
+             "scratch pairs: observation O2). NOT under contract: the object-cache length.",
         note=TB + "io::Write modelled as a budgeted all-or-nothing sink, Cursor<&[u8]>/Read as a byte source with a position (std documentation); "
              "decode_size_with_offset is ASSUMED in Verus with exactly the statement Kani proves on the compiled function. Observation O1: the two "
              "token counters in tools.rs are i32 and overflow after 2^31-2 consecutive cons markers, so those contracts require inputs < 2^31-1 bytes.",
